@@ -2,6 +2,7 @@
 from . import genv as G
 
 CLASS_DIRS = [[], ["d1"], ["d1", "d2"], ["e1"], ["d1", "d2", "d3"]]
+DOTTED_CLASS_DIRS = [[], ["r-1.2"], ["r-1.2", "eu"], ["d1", "v.2"], ["d1"], ["r-1"]]
 
 
 def cls_file(path_segs, ext="yml"):
@@ -52,8 +53,9 @@ def gen_graph(r, n, shape):
 def place(r, names, nested):
     """Assign each class a directory (-> dotted absolute name)."""
     loc = {}
+    dirs = DOTTED_CLASS_DIRS if nested == "dotted" else CLASS_DIRS
     for x in names:
-        d = r.choice(CLASS_DIRS) if nested else []
+        d = r.choice(dirs) if nested else []
         loc[x] = list(d)
     return loc
 
